@@ -247,6 +247,24 @@ func runHist(c histCase) harness.Result {
 			return harness.Fail("step %d (%s %+v): result after the preceding reads is %s, but the same call on a freshly parsed copy of the response gives %s", i, a.Op, a, show(got), show(ref))
 		}
 		results[i] = got
+		if (a.Op == "extract" || a.Op == "extract-coils") && len(a.Fields) > 1 && got.err != "" && a.Lenient && len(got.fields) == len(a.Fields) {
+			// lenient extraction with failures: every field still stands for itself - it fails or succeeds, with the same value, as
+			// when it is extracted alone (an earlier failing field must not influence the reads that follow it)
+			for fi, f := range a.Fields {
+				solo, err := open(c)
+				if err != nil {
+					return harness.Fail("harness: %v", err)
+				}
+				one := solo.do(c, action{Op: a.Op, Fields: []modbus.Field{f}, Lenient: true})
+				if len(one.fields) != 1 {
+					continue
+				}
+				g := got.fields[fi]
+				if (g.Error == nil) != (one.fields[0].Error == nil) || (g.Error == nil && !spec.SameValue(one.fields[0].Value, g.Value)) {
+					return harness.Fail("step %d (lenient extraction): field %d (%+v) gives (%v, err=%v) when extracted after the fields before it, but (%v, err=%v) when extracted alone: an earlier read influenced it", i, fi, f, g.Value, g.Error, one.fields[0].Value, one.fields[0].Error)
+				}
+			}
+		}
 		if (a.Op == "extract" || a.Op == "extract-coils") && len(a.Fields) > 1 && got.err == "" {
 			// reading order independence inside one extraction: every field's value must equal the value obtained by extracting
 			// that field alone from a fresh copy (a read must not influence the reads that follow it)
